@@ -31,6 +31,8 @@ WORLDS = [
     # labels only at coordinate 0 (an already-trimmed one-label molecule; coincident labels at 0); a label exactly at ContigLength
     [(4, 30.0, [0.0]), (6, 40.0, [0.0, 0.0]), (9, 25.0, [])],
     [(5, 70.0, [0.0, 70.0]), (8, 60.4, [60.0])],
+    # molecule ids that do not survive a round trip through a double
+    [(9007199254740993, 50.0, [10.0, 20.5]), (9007199254740992, 40.0, [5.0]), (4611686018427387905, 30.0, [1.5])],
 ]
 
 
